@@ -234,6 +234,82 @@ pub fn simple_h2(r: &mut Rng, id: u64, hostile: bool) -> (Vec<u8>, Vec<u8>) {
     (req, res)
 }
 
+/// HTTP/2 request/response built with the full HPACK encoder (varied representations, Huffman,
+/// dynamic-table inserts and references); single HEADERS frame with END_HEADERS.
+pub fn rich_h2(r: &mut Rng, id: u64, hostile: bool) -> (Vec<u8>, Vec<u8>) {
+    use crate::h2gen::{self, Encoder, HeadersOpts, Indexing, Repr};
+    fn repr(r: &mut Rng) -> Repr {
+        match r.below(5) {
+            0 => Repr::Indexed,
+            1 => Repr::PLAIN,
+            2 => Repr::lit(Indexing::Incremental, true, true),
+            3 => Repr::lit(Indexing::Never, r.chance(1, 2), r.chance(1, 2)),
+            _ => Repr::lit(Indexing::Incremental, r.chance(1, 2), false),
+        }
+    }
+    let ua: &str = *r.pick(&UAS);
+    let auth = format!("h{id}.example");
+    let cid = id.to_string();
+    let mut fields: Vec<(String, String)> = vec![
+        (":method".into(), (*r.pick(&["GET", "POST"])).to_string()),
+        (":scheme".into(), "https".into()),
+        (":path".into(), format!("/r/{}", r.below(100))),
+        (":authority".into(), auth),
+    ];
+    if r.chance(1, 2) {
+        fields.swap(1, 3);
+    }
+    fields.push(("user-agent".into(), ua.to_string()));
+    fields.push(("accept".into(), "*/*".into()));
+    if r.chance(1, 2) {
+        fields.push(("accept-language".into(), "en-US,en;q=0.9".into()));
+    }
+    if r.chance(1, 2) {
+        fields.push(("cookie".into(), format!("sid={id}")));
+    }
+    fields.push(("x-conn-id".into(), cid.clone()));
+    if r.chance(1, 3) {
+        fields.push(("x-conn-id".into(), cid.clone()));
+    }
+    let mut enc = Encoder::new();
+    let mut block = Vec::new();
+    if hostile && r.chance(1, 3) {
+        enc.size_update(&mut block, *r.pick(&[0usize, 64, 4096]));
+    }
+    for (n, v) in &fields {
+        enc.field(&mut block, n.as_bytes(), v.as_bytes(), repr(r));
+    }
+    if hostile {
+        match r.below(3) {
+            0 => enc.raw_indexed(&mut block, 62 + r.usize(4)),
+            1 => block.extend_from_slice(&[0x3f, 0xe1, 0x7f]),
+            _ => enc.raw_indexed(&mut block, 70 + r.usize(60)),
+        }
+    }
+    let mut pre = h2gen::settings(&[(1, 65536), (3, 1000), (4, 6291456)]);
+    if r.chance(1, 2) {
+        pre.extend_from_slice(&h2gen::window_update(0, 15663105));
+    }
+    let req = h2gen::request_bytes(&pre, &block, &HeadersOpts::plain(1), &[]);
+    let mut enc = Encoder::new();
+    let mut rb = Vec::new();
+    let server: &str = *r.pick(&["nginx", "h2o/2.2.6", "envoy", "cloudflare"]);
+    let status = (*r.pick(&["200", "204", "404"])).to_string();
+    let rf: Vec<(String, String)> = vec![(":status".into(), status), ("server".into(), server.into()), ("content-type".into(), "text/html".into()), ("x-conn-id".into(), cid)];
+    for (n, v) in &rf {
+        enc.field(&mut rb, n.as_bytes(), v.as_bytes(), repr(r));
+    }
+    if hostile && r.chance(1, 2) {
+        enc.raw_indexed(&mut rb, 62 + r.usize(3));
+    }
+    let mut o = HeadersOpts::plain(1);
+    o.end_stream = false;
+    let body_len = r.usize(120);
+    let body = r.bytes(body_len);
+    let res = h2gen::response_bytes(&h2gen::settings(&[(3, 100)]), &rb, &o, &h2gen::data(1, &body, true, None));
+    (req, res)
+}
+
 pub fn ep_for(r: &mut Rng, id: u64, v6: bool) -> Endpoints {
     let cport = 1025 + ((id * 7 + r.below(50000)) % 64000) as u16;
     let sport = *r.pick(&[80u16, 443, 8080, 8443]);
@@ -320,6 +396,7 @@ pub fn gen_conn(r: &mut Rng, id: u64, kind: Kind, base: u64) -> Conn {
             let hostile = kind == Kind::Http2Hostile;
             let (req, res) = match H2.get() {
                 Some(p) => p(r, id, hostile),
+                None if r.chance(2, 3) => rich_h2(r, id, hostile),
                 None => simple_h2(r, id, hostile),
             };
             let c = cuts(r, req.len(), 3);
